@@ -112,9 +112,12 @@ def judge(ctx: core.Ctx, case: dict[str, Any]) -> None:
         # only {{ name }} placeholders are substituted; literal text (even text that looks like %(name)s) is left alone
         outer = {"you": "OUTER-YOU", "n": "OUTER-N"} if case.get("outer") else {}
         # a placeholder names a variable of the block's scope: the tag's own arguments first (nil included), then whatever the name means outside
-        exp = re.sub(r"\{\{\s*(\w+)\s*\}\}", lambda m2: _txt(allvars[m2.group(1)] if m2.group(1) in allvars else outer.get(m2.group(1), "")), chosen)
+        # "the tag also collapses whitespace runs": the message text is stripped and every whitespace run that holds a line break becomes
+        # one space (documented behaviour of the tag); what a variable's own value contains is left alone
+        chosen_n = re.sub(r"\s*\n\s*", " ", chosen.strip())
+        exp = re.sub(r"\{\{\s*(\w+)\s*\}\}", lambda m2: _txt(allvars[m2.group(1)] if m2.group(1) in allvars else outer.get(m2.group(1), "")), chosen_n)
         o = drv.parse_and_render(e, src, data, use_async=case.get("async", False))
-        norm = lambda s: WSRUN.sub(" ", s).strip()  # noqa: E731
+        norm = lambda s: s  # noqa: E731 - compared exactly
     else:
         f = case["filter"]
         left = "m" if not case.get("literal") else None
@@ -181,7 +184,7 @@ def judge(ctx: core.Ctx, case: dict[str, Any]) -> None:
 
 
 TOKENS = ["Hello", " ", "%", "%%", "%s", "%d", "%(you)s", "%(n)s", "%(count)s", "(", ")", "\n  ", "<b>", "{", "100%", "%(", ")s", "é"]
-TAG_TOKENS = ["Hello", " ", "%", "%%", "%s", "%(you)s", "(", ")", "\n  ", "<b>", "100%", "{{ you }}", "{{ n }}", "é", "  "]
+TAG_TOKENS = ["Hello", " ", "%", "%%", "%s", "%(you)s", "(", ")", "\n  ", "<b>", "100%", "{{ you }}", "{{ n }}", "é", "  ", "\n\n", " \r\n \n\t"]
 COUNTS: list[Any] = [-1, 0, 1, 2, 5, "2", 1.0, None]
 
 
